@@ -8,21 +8,23 @@ pub fn maybe_fuzz<P: Prop>(tier: Tier, seed: u64, r: &mut RunResult) {
         return;
     }
     let root = verif_root();
-    let fuzz_dir = format!("{root}/fuzz");
+    let fuzz_dir = format!("{root}/harness");
     let t0 = std::time::Instant::now();
-    let corpus = format!("/verif/target/fuzz-corpus/{}-{}", spec.target, std::process::id());
-    let artifacts = format!("/verif/target/fuzz-artifacts/{}-{}/", spec.target, std::process::id());
+    let corpus = format!("{root}/target/fuzz-corpus/{}-{}", spec.target, std::process::id());
+    let artifacts = format!("{root}/target/fuzz-artifacts/{}-{}/", spec.target, std::process::id());
     let _ = std::fs::remove_dir_all(&corpus);
     let _ = std::fs::create_dir_all(&corpus);
     let _ = std::fs::create_dir_all(&artifacts);
-    let seeds = format!("{fuzz_dir}/seeds/{}", spec.target);
+    let seeds = format!("{fuzz_dir}/fuzz/seeds/{}", spec.target);
     let jobs = 8u64;
-    let per = spec.runs / jobs;
+    let runs = std::env::var("VERIF_FUZZ_RUNS").ok().and_then(|s| s.parse::<u64>().ok()).unwrap_or(spec.runs);
+    let per = runs / jobs;
     // build once
     let b = Command::new("cargo")
         .args(["+nightly", "fuzz", "build", spec.target])
         .current_dir(&fuzz_dir)
         .env("CARGO_NET_OFFLINE", "true")
+        .env("RUSTFLAGS", "--cfg tokio_unstable")
         .output();
     match b {
         Ok(o) if o.status.success() => {}
@@ -50,7 +52,7 @@ pub fn maybe_fuzz<P: Prop>(tier: Tier, seed: u64, r: &mut RunResult) {
         cmd.arg("-print_final_stats=1");
         cmd.arg("-rss_limit_mb=4096");
         cmd.arg(format!("-artifact_prefix={artifacts}"));
-        cmd.current_dir(&fuzz_dir).env("CARGO_NET_OFFLINE", "true");
+        cmd.current_dir(&fuzz_dir).env("CARGO_NET_OFFLINE", "true").env("RUSTFLAGS", "--cfg tokio_unstable").env("VERIF_ROOT", &root);
         cmd.stdout(std::process::Stdio::piped()).stderr(std::process::Stdio::piped());
         match cmd.spawn() {
             Ok(c) => children.push(c),
@@ -82,7 +84,7 @@ pub fn maybe_fuzz<P: Prop>(tier: Tier, seed: u64, r: &mut RunResult) {
     let corpus_units = std::fs::read_dir(&corpus).map(|d| d.count()).unwrap_or(0);
     let mut fuzz_ev = serde_json::json!({
         "target": spec.target, "engine": "libFuzzer (cargo-fuzz, ASan, debug assertions)",
-        "requested_runs": spec.runs, "executed_units": executed, "jobs": jobs,
+        "requested_runs": runs, "executed_units": executed, "jobs": jobs,
         "corpus_units_at_end": corpus_units, "wall_s": t0.elapsed().as_secs_f64(),
     });
     if crashed {
